@@ -122,6 +122,7 @@ def run_case(idx, rng, P, rep):
                     pobj.length = s2['kw']['length']
                 elif s['ptype'] in ('Selector', 'ListSelector'):
                     pobj.objects = s2['kw']['objects']
+                    pobj.check_on_set = s2['kw'].get('check_on_set', True)
                 v = None if s2['allow_None'] and rng.random() < 0.3 else s2['gen'](rng)
                 if v is None:
                     s2['allow_None'] = True
@@ -172,7 +173,13 @@ def run_case(idx, rng, P, rep):
         for k, v in data.items():
             if k not in validators:
                 continue
-            errs = list(validators[k].iter_errors(v))
+            vd = validators[k]
+            if k in by_name and 'check_on_set' in by_name[k]['kw']:
+                # a Selector that adds whatever it is given to its objects: to those of the object it is assigned on, so the
+                # schema that describes this state is that object's own
+                vd = js.Draft7Validator(json.loads(json.dumps(obj.param.schema()[k])))
+                rep.count('unchecked_selector_states')
+            errs = list(vd.iter_errors(v))
             rep.count('values_validated')
             if errs:
                 pt = by_name[k]['ptype'] if k in by_name else 'String'
